@@ -153,7 +153,130 @@ def search(job):
     return {"failures": out[:3], "tried": tried}
 
 
+def derive(job):
+    """C16: a script of derivation operations; after each one every object created so far is probed
+    again and must behave as when it was created."""
+    jsonschema, validators, exceptions, cli = load(job["root"])
+    from jsonschema import _types, _format
+    import itertools
+    out, tried = [], 0
+    classes = {3: validators.Draft3Validator, 4: validators.Draft4Validator, 6: validators.Draft6Validator, 7: validators.Draft7Validator}
+    objects = []      # (name, probe function)
+    recorded = {}
+    before_ms = {k: v for k, v in validators.meta_schemas.items()}
+    before_v = dict(validators.validators)
+    before_cls_checkers = dict(_format.FormatChecker.checkers)
+
+    def probe_class(cls):
+        def p():
+            r = []
+            for schema, inst in PROBES + [({"type": "any"}, 1), ({"type": "frob"}, 1), ({"id": "http://x/", "$id": "http://y/", "properties": {"a": {"$ref": "#/definitions/d"}}, "definitions": {"d": {"type": "integer"}}}, {"a": "s"}),
+                                          ({"enum": ("a", "b")}, "a"), ({"type": 12}, 1), ({"format": "even"}, 3)]:
+                r.append(repr(behave(cls, schema, inst, exceptions)))
+            return r
+        return p
+
+    def probe_checker(tc):
+        def p():
+            r = []
+            for t in ("any", "array", "integer", "number", "frob", "string"):
+                for x in (1, 1.0, True, "s", [], None):
+                    try:
+                        r.append(tc.is_type(x, t))
+                    except Exception as e:      # noqa
+                        r.append(type(e).__name__)
+            return r
+        return p
+
+    def probe_format(fc):
+        def p():
+            r = []
+            for f in ("ipv4", "even", "date", "nothing"):
+                for x in ("1.2.3.4", "x", 2, 3):
+                    try:
+                        r.append(fc.conforms(x, f))
+                    except Exception as e:      # noqa
+                        r.append(type(e).__name__)
+            return r + [sorted(fc.checkers)]
+        return p
+
+    def add(name, probe):
+        objects.append((name, probe))
+        recorded[name] = probe()
+
+    def recheck(after):
+        nonlocal tried
+        for name, probe in objects:
+            tried += 1
+            now = probe()
+            if now != recorded[name]:
+                out.append({"kind": "D", "object": name, "after": after, "problem": "object %s behaves differently after %s" % (name, after)})
+                recorded[name] = now
+    try:
+        for d, c in classes.items():
+            add("Draft%d" % d, probe_class(c))
+        for nm in ("draft3_type_checker", "draft4_type_checker", "draft6_type_checker"):
+            add(nm, probe_checker(getattr(_types, nm)))
+        fc0 = jsonschema.FormatChecker()
+        add("FormatChecker()#0", probe_format(fc0))
+        add("draft7_format_checker", probe_format(_format.draft7_format_checker))
+        v_inst = classes[7]({"type": "integer"})
+        add("validator-instance", lambda: [v_inst.is_valid(1), v_inst.is_valid(1.5), v_inst.is_type(1, "integer")])
+        steps = []
+        # the order of probes of derived objects matters for memo-style aliasing: ask the derived object first
+        steps.append(("draft4_type_checker asked about 'any'", lambda: probe_checker(_types.draft4_type_checker)()))
+        steps.append(("TypeChecker.redefine", lambda: add("redefined", probe_checker(_types.draft4_type_checker.redefine("integer", lambda c, x: isinstance(x, str))))))
+        steps.append(("TypeChecker.redefine_many", lambda: add("redefined-many", probe_checker(_types.draft3_type_checker.redefine_many({"frob": lambda c, x: True, "any": lambda c, x: False})))))
+        steps.append(("TypeChecker.remove", lambda: add("removed", probe_checker(_types.draft6_type_checker.remove("integer", "array")))))
+        for d in (3, 4, 6, 7):
+            steps.append(("extend(Draft%d) unchanged" % d, lambda d=d: add("ext%d" % d, probe_class(validators.extend(classes[d])))))
+            steps.append(("extend(Draft%d, override type, version)" % d, lambda d=d: add("ext%dv" % d, probe_class(
+                validators.extend(classes[d], validators={"type": lambda v, t, i, s: iter(())}, version="my%d" % d)))))
+            steps.append(("extend(Draft%d, type_checker)" % d, lambda d=d: add("ext%dt" % d, probe_class(
+                validators.extend(classes[d], type_checker=classes[d].TYPE_CHECKER.redefine("integer", lambda c, x: True))))))
+        steps.append(("create without version", lambda: add("created", probe_class(validators.create(meta_schema={"$id": "urn:mine"}, validators={"type": classes[7].VALIDATORS["type"]})))))
+
+        def with_types():
+            with warnings.catch_warnings():
+                warnings.simplefilter("ignore")
+                v = classes[4]({"type": "integer"}, types={"integer": (int, str)})
+            add("Validator(types=...)", lambda: [v.is_valid("s"), v.is_valid(1.5)])
+        steps.append(("Validator(types=...)", with_types))
+        steps.append(("checker.checks on an instance", lambda: fc0.checks("even")(lambda x: x % 2 == 0) and None))
+        steps.append(("FormatChecker.cls_checks", lambda: _format.FormatChecker.cls_checks("even")(lambda x: x % 2 == 1) and None))
+        steps.append(("FormatChecker() after cls_checks", lambda: add("FormatChecker()#1", probe_format(jsonschema.FormatChecker()))))
+        steps.append(("FormatChecker(formats=...)", lambda: add("FormatChecker(formats)", probe_format(jsonschema.FormatChecker(formats=("ipv4",))))))
+        for name, step in steps:
+            own = None
+            if name == "checker.checks on an instance":
+                own = "FormatChecker()#0"
+            step()
+            if own:
+                recorded[own] = dict(objects)[own]()      # the object the operation is *meant* to change
+            recheck(name)
+            if len(out) >= 3:
+                break
+        # an unchanged extension behaves as its parent
+        for d in (3, 4, 6, 7):
+            if "ext%d" % d in recorded and recorded["ext%d" % d] != recorded["Draft%d" % d]:
+                out.append({"kind": "D", "object": "extend(Draft%d)" % d, "after": "extend", "problem": "a class extended without changes behaves differently from its parent"})
+        # class-wide registration affects only checkers created afterwards
+        if "FormatChecker()#1" in recorded and "even" not in recorded["FormatChecker()#1"][-1]:
+            out.append({"kind": "D", "object": "FormatChecker()#1", "after": "cls_checks", "problem": "class-wide registration not visible in a checker created afterwards"})
+    finally:
+        validators.meta_schemas.store.clear()
+        validators.meta_schemas.store.update(before_ms)
+        validators.validators.clear()
+        validators.validators.update(before_v)
+        _format.FormatChecker.checkers.clear()
+        _format.FormatChecker.checkers.update(before_cls_checkers)
+    return {"failures": out[:3], "tried": tried}
+
+
 def replay(job):
+    if job.get("failure", {}).get("kind") == "D":
+        r = derive(job)
+        return {"status": "fails", "failure": r["failures"][0]} if r["failures"] else {"status": "agrees"}
     r = search(dict(job, cli=True))
     if r["failures"]:
         return {"status": "fails", "failure": r["failures"][0]}
@@ -162,4 +285,4 @@ def replay(job):
 
 if __name__ == "__main__":
     job = json.load(sys.stdin)
-    json.dump({"search": search, "replay": replay}[job["cmd"]](job), sys.stdout, default=str)
+    json.dump({"search": search, "replay": replay, "derive": derive}[job["cmd"]](job), sys.stdout, default=str)
